@@ -25,7 +25,11 @@ def run(chk, tier):
     # G-GUARD instances:
     gguard.check(chk, only_prefixes=["sbe_schema_validator::validate_field_offset | ",
                                      "sbe_schema_validator::validate_element_offset | ",
-                                     "utils::get_valid_offset | "], effects=False)
+                                     "utils::get_valid_offset | ",
+                                     # the other re-check of the generators: a char constant must fit its `length`, measured in
+                                     # bytes by both sides
+                                     "sbe_schema_validator::validate_constant_value | {}: constant length",
+                                     "utils::make_string_constant | "], effects=False)
     import gcalls
     gcalls.check_order(chk)
     gtpl.check(chk)
